@@ -192,6 +192,13 @@ var c04Nest = []struct {
 	{"dotted multi-selects", []string{"a", ".", "["}, []string{"a"}, []string{"]"}},
 	{"star after star", []string{"*", "."}, []string{"*"}, nil},
 	{"projection after filter", nil, []string{"a"}, []string{"[?", "a", "]", ".", "a", "[", "*", "]"}},
+	{"index then slice with a start", nil, []string{"a"}, []string{"[", "0", "]", "[", "1", ":", "]"}},
+	{"index then full slice", nil, []string{"a"}, []string{"[", "-1", "]", "[", "1", ":", "2", ":", "1", "]"}},
+	{"slice then index", nil, []string{"a"}, []string{"[", ":", "1", "]", "[", "0", "]"}},
+	{"index then stop-only slice", nil, []string{"a"}, []string{"[", "0", "]", "[", ":", "1", "]"}},
+	{"index, slice, index after a star", nil, []string{"a", "[", "*", "]"}, []string{"[", "0", "]", "[", "1", ":", "]", "[", "0", "]"}},
+	{"dotted path ending in a call", nil, []string{"a"}, []string{".", "a", ".", "length", "(", "@", ")"}},
+	{"adjacent list wildcards", nil, []string{"a"}, []string{"[", "*", "]", "[", "*", "]"}},
 }
 
 func c04Long(r *mon.Run) {
@@ -353,6 +360,22 @@ func c04Long(r *mon.Run) {
 			}
 		}
 	}
+	// every built-in function name (and near misses) with every argument shape the grammar allows: the grammar knows
+	// no function names, arities or argument kinds - sort_by(a, b) is a sentence like f(a, b)
+	fnNames := append(ref.FunctionNames(), "f", "sort", "sortby", "Sort_by", "max_", "to", "not", "null", "true")
+	argShapes := [][]string{{}, {"a"}, {"a", ",", "a"}, {"&", "a"}, {"&", "a", ",", "a"}, {"a", ",", "&", "a"}, {"a", ",", "a", ",", "a"}, {"&", "a", ",", "&", "a"}, {"'r'", ",", "`1`"}, {"@"}, {"a", ".", "b", ",", "a", "[", "0", "]"}}
+	fnw := mon.Workload{Name: "function-names-and-argument-shapes", N: len(fnNames) * len(argShapes) * 3,
+		Do: func(i int, t *mon.Tally) {
+			lex := append([]string{fnNames[i/3/len(argShapes)], "("}, argShapes[i/3%len(argShapes)]...)
+			lex = append(lex, ")")
+			switch i % 3 {
+			case 1:
+				lex = append([]string{"a", "[", "*", "]", "."}, lex...)
+			case 2:
+				lex = append(append([]string{"a", "||"}, lex...), "|", "[", "0", "]")
+			}
+			judge(t, "function-names-and-argument-shapes", i, lex)
+		}}
 	w3 := mon.Workload{Name: "inside-lexemes", N: len(lxs),
 		Describe: func(i int) string { return lxs[i].what },
 		Do: func(i int, t *mon.Tally) {
@@ -381,7 +404,7 @@ func c04Long(r *mon.Run) {
 			}
 			t.Nontrivial("lx:" + c.expr)
 		}}
-	r.Exec(w1, w2, w3)
+	r.Exec(w1, w2, fnw, w3)
 }
 
 // c04Whitespace: the no-space and mixed-whitespace spellings of a grammatical
